@@ -49,7 +49,7 @@ PRELUDE = {
            "class Stamp(Auto):\n"
            "    def sync_after_unpack(self, instance):\n"
            "        setattr(instance, self.real_field_name, 9)\n"
-           "DESC = Stamp(lambda pkt: 7)\n"),
+           "DESC = Stamp(lambda pkt: 8)\n"),
 }
 OPTS = {
     "default": "{'annotate': False}",
